@@ -6,8 +6,10 @@ import (
 	restful "github.com/emicklei/go-restful/v3"
 )
 
-// The Go side of the known-finding classes (Lean: Spec.F07, Spec.F07b).  Written independently of
-// the package under test; the driver's class bits are cross-checked against these on every case.
+// The Go side of the class of the open finding F07b (Lean: Spec.F07b) and of the class of the
+// finding F07 that d89a7d4 repaired (Lean: Spec.F07; a coverage class only: nothing is excused inside
+// it).  Written independently of the package under test; the driver's class bits are cross-checked
+// against these on every case.
 
 func trimOWS(s string) string { return strings.Trim(s, " \t") }
 
@@ -65,8 +67,9 @@ func DefaultSet(d string) bool {
 	return d == restful.MIME_JSON || d == restful.MIME_XML || d == restful.MIME_ZIP
 }
 
-// ClassF07: no Accept header value and a default response content type is set.
-func ClassF07(accept, dflt string) bool { return accept == "" && DefaultSet(dflt) }
+// ClassFormerF07: no Accept header value and a default response content type is set — the class of
+// the REPAIRED finding F07.  It excuses nothing; the check measures that the stream keeps visiting it.
+func ClassFormerF07(accept, dflt string) bool { return accept == "" && DefaultSet(dflt) }
 
 // ClassF07b: non-empty header the router admits, none of whose well-formed ranges is satisfiable
 // (all produced types are registered in this stream, so "satisfiable" = */* or produced).
